@@ -500,6 +500,42 @@ theorem c12_clock_stride_breaks :
     (runClocked Q genConsts 1 ⟨State.init 10, 0, 1000⟩ steadyEight).2 = List.replicate 24 1 := by
   decide +kernel
 
+/-! ## The default random number generator -/
+
+/-- **C12 (default RNG).** `DefaultRng<R>` is transparent: for every script of the inner generator and
+every sequence of `RngCore` calls (`next_u32`, `next_u64`, `fill_bytes`, and the `f32`/`f64` draws made
+from them) the wrapper returns exactly what the inner generator returns. So the draws of the default
+path (`Emf::with_sampling()`, `FixedFractionSample::new`, `CongressSampleBuilder::build`) have the inner
+generator's distribution, and `c12_unbiased` / `c12_alpha_range` apply to it unchanged. -/
+theorem c12_default_rng_transparent (s : Script) (calls : List RngCall) :
+    runCalls (wrapperCall false) s calls = runCalls innerCall s calls := by
+  induction calls generalizing s with
+  | nil => rfl
+  | cons c cs ih =>
+    have h : wrapperCall false s c = innerCall s c := by cases c <;> rfl
+    simp only [runCalls, h, ih]
+
+/-- **Why `next_u64` must forward to `next_u64`.** If it returned `next_u32` zero-extended
+(`narrow = true`), every `f64` draw would be below `2^-32` (numerator `< 2^21` of `2^53`) whatever the
+inner generator does, and for rate `0.4f32 = 13421773·2^-25` the weight would be `2 = ⌊1/rate⌋` for every
+word: the ceiling 3 would never be chosen and the expectation would be 2, not `1/rate ≈ 2.5`. -/
+theorem c12_default_rng_narrow_breaks :
+    (∀ s : Script, ∃ d, (wrapperCall true s .f64).1 = [d] ∧ d < 2 ^ 21) ∧
+    (∀ word : Nat, rateToN ⟨13421773, -(25 : Nat)⟩ (drawF64 (word % 2 ^ 64 / 2 ^ 32)) = 2) ∧
+    (∃ word : Nat, rateToN ⟨13421773, -(25 : Nat)⟩ (drawF64 word) = 3) := by
+  refine ⟨fun s => ⟨_, rfl, ?_⟩, fun word => ?_, ⟨2 ^ 64 - 1, ?_⟩⟩
+  · show (s.next.1 / 2 ^ 32) % 2 ^ 64 / 2 ^ 11 < 2 ^ 21
+    have : s.next.1 < 2 ^ 64 := Nat.mod_lt _ (by decide)
+    omega
+  · have hok : RateOK 13421773 25 := ⟨by decide, by decide, by decide, by decide⟩
+    have hf : fracBits 13421773 25 = 51 := by decide +kernel
+    have hM : invSig 13421773 25 = 5629499450327041 := by decide +kernel
+    rw [rateToN_eq 13421773 25 _ hok, hf, hM]
+    have : word % 2 ^ 64 / 2 ^ 32 % 2 ^ 64 / 2 ^ 11 < 2 ^ 21 := by omega
+    rw [if_pos (by omega)]
+    decide
+  · decide +kernel
+
 /-! ## Every binary32 rate has the shape the weight theorems assume -/
 
 /-- Every binary32 bit pattern of a rate in `(0,1]` (`0 < bits ≤ 0x3f800000`) decodes to `m·2^-k` with a
@@ -597,4 +633,6 @@ end Sampling
 #print axioms Sampling.c12_sort_needed
 #print axioms Sampling.c12_clock_rollover
 #print axioms Sampling.c12_clock_stride_breaks
+#print axioms Sampling.c12_default_rng_transparent
+#print axioms Sampling.c12_default_rng_narrow_breaks
 #print axioms Sampling.c12_f32_rate_shape
